@@ -223,7 +223,7 @@ class Support final {
   std::optional<RelativeIndex> intervalIndexFromAbsolute(
       AbsoluteIndex index) const {
     DURING_TEST_CHECK_VALIDITY();
-    if (index >= _startIndex && index + 1 < _endIndex) {
+    if (index >= _startIndex && index < _endIndex && index + 1 < _endIndex) {
       return index - _startIndex;
     } else {
       return std::nullopt;
@@ -315,7 +315,7 @@ class Support final {
    */
   const T &at(RelativeIndex index) const {
     DURING_TEST_CHECK_VALIDITY();
-    if (_startIndex + index >= _endIndex) {
+    if (index >= size()) {
       throw BSplineException(ErrorCode::INVALID_ACCESS);
     }
     return _grid.at(_startIndex + index);
